@@ -283,7 +283,8 @@ def run(ctx):
                 "classmethods; antimeridian-crossing and pole-centred grids; contradiction cases = consistent description + one extra "
                 "parameter perturbed by 1e-9..1 relative; all 64 subsets of the six parameters for missing information; degree "
                 "centre/radius/resolution on projected CRSs and malformed values for the correspondence only; dump/load of 1..6 "
-                "areas per string/list/file/stream with region selection.  A case is non-trivial when the implementation has to "
+                "areas per string/list/file/stream/deprecated alias with region selection, ids / descriptions / an added proj_id entry "
+                "drawn from YAML-hostile and empty / falsy-looking strings ('', '0', 'None', ' ', 'False', '0.0', '[]').  A case is non-trivial when the implementation has to "
                 "derive extent or shape (not extent+shape given in projection units) or loads at least one area; distinct = "
                 "distinct argument sets")
     creates = []      # (case dict for the driver, meta dict)
@@ -519,6 +520,14 @@ def run(ctx):
         if cls == "sets":
             s = meta["set"]
             ctx.count("sets_%s_%s" % (s, meta["unit"]))
+            if s == "es":
+                ctx.count("grid_on_" + name)
+                if POOL[name][1] == "deg" and (meta["ext"][0] < -180 or meta["ext"][2] > 180):
+                    ctx.count("grid_beyond_antimeridian")
+                if name.startswith("stere") and math.hypot(*meta["d"]["center"]) == 0.0:
+                    ctx.count("grid_pole_centred")
+            if pole_snapped(name, meta["d"], case["args"]):
+                ctx.count("description_with_centre_within_1e-4deg_of_pole")
             nontrivial = not (s == "es" and meta["unit"].startswith("proj"))
             ctx.case(canon, nontrivial=nontrivial, sample={"description": s, "crs": name, "units": meta["unit"], "args": case["args"], "impl": o.get("extent"), "shape": o.get("shape")})
             want_ext, want_shape = meta["ext"], list(meta["shape"])
@@ -602,6 +611,15 @@ def run(ctx):
         ids = [a["id"] for a in yc["areas"]]
         regions = yc["regions"]
         missing_region = any(x not in ids for x in regions)
+        for a in yc["areas"]:
+            if a["description"] in falsy:
+                ctx.count("yaml_falsy_description")
+            if a["id"] in falsy:
+                ctx.count("yaml_falsy_id")
+            if a.get("inject_proj_id") is not None:
+                ctx.count("yaml_proj_id_entry" + ("_falsy" if a["inject_proj_id"] in falsy else ""))
+        if regions:
+            ctx.count("yaml_region_selection" + ("_missing" if missing_region else ""))
         if missing_region:
             if not ("error" in yo and yo["error"]["exc"] == "AreaNotFound"):
                 ctx.add_failure("C13.yaml.missing_region", "loading regions %s from a file with areas %s does not raise AreaNotFound: %s" % (regions, ids, yo.get("error")), replay)
@@ -646,10 +664,16 @@ def run(ctx):
                                 break
                         if why is None and not epsg_short and not rewrite and not b.get("eq"):
                             why = "loaded area != original although the CRS was dumped as written (crs equal: %s)" % b.get("crs_eq")
+                    c2 = b.get("cycle2")
+                    if why is None and c2 is not None:
+                        ctx.count("yaml_second_cycle")
+                        if c2 != {k_: b.get(k_) for k_ in ("kind", "id", "description", "shape", "extent")}:
+                            why, sub = "a second dump -> load cycle changes the area: %s -> %s" % (
+                                {k_: b.get(k_) for k_ in ("id", "description", "shape", "extent")}, c2), "second_cycle"
                     if why:
                         cls = "epsg_shorthand" if epsg_short else "unit_rewrite" if rewrite else "as_written"
                         if sub:
-                            falsy_in = (a["description"] if sub == "description" else a["inject_proj_id"]) in ("", "0", "None", " ", "False", "0.0", "[]")
+                            falsy_in = sub != "second_cycle" and (a["description"] if sub == "description" else a["inject_proj_id"]) in ("", "0", "None", " ", "False", "0.0", "[]")
                             cls = sub + (".falsy_string" if falsy_in else "")
                         ctx.add_failure("C13.yaml.roundtrip.%s.%s" % (cls, tag), "dump -> load (%s) of area %r on %s: %s" % (yc["mode"], a["id"], json.dumps(a["crs"]), why), replay)
         # ---- dict-level correspondence text (strings are tokens: one number per distinct observed string)
